@@ -23,13 +23,17 @@ def oracle_cfg(cfg):
 
 
 def run_compile_model(chk, level, label="Compile"):
-    res = common.run_tlc("Compile", f"Compile_{level}.cfg", timeout=3000, coverage=(level == "quick"))
+    res = common.run_tlc("Compile", f"Compile_{level}.cfg", timeout=3000, coverage=False)
     chk.add_tlc(res, f"{label}_{level} (exhaustive)")
     if not res.ok:
         chk.tlc_violation(res, f"Compile_{level}")
-    vac = res.vacuous_actions()
-    if level == "quick" and vac:
-        raise MachineryError(f"vacuous actions in Compile: {vac}")
+    # vacuity (coverage statistics triple the run time of this rational-arithmetic model): every branch of the
+    # protocol must occur among the exported terminal states
+    kinds = {o["kind"] for rec in res.records for g in rec["out"] for o in g}
+    fallbacks = sum(sum(rec["fallbacks"].values()) for rec in res.records)
+    chk.notes["compile_model_branches"] = {"kinds": sorted(kinds), "fallback_misses": fallbacks}
+    if kinds != {"hit", "miss"} or fallbacks == 0:
+        raise MachineryError(f"Compile model did not exercise every branch: {kinds}, fallbacks={fallbacks}")
     # group the possible outcomes per source scenario (affine_between's choice is nondeterministic in the model)
     by_src = {}
     for rec in res.records:
